@@ -30,3 +30,20 @@ Definition LOOKAHEAD : N := MAX_FRAME + 4.
 (* what a drained iterator delivered: the messages and the final counters / latches (the reader is dropped) *)
 Definition iter_result {R} (x : res (list msg * ist * R)) : res (list msg * ist) :=
   match x with Ok (ms, st, _) => Ok (ms, st) | Panic s => Panic s | OutOfFuel => OutOfFuel end.
+
+(* ---- position independence: the same iterator run with counters advanced by (di messages, dp bytes
+   processed, dk bytes skipped) *)
+Definition msg_shift (di : N) (m : msg) : msg :=
+  {| m_index := m_index m + di; m_reception_us := m_reception_us m; m_ecu := m_ecu m; m_timestamp := m_timestamp m;
+     m_std := m_std m; m_ext := m_ext m; m_payload := m_payload m |}.
+Definition ist_shift (di dp dk : N) (st : ist) : ist :=
+  {| i_index := i_index st + di; i_processed := i_processed st + dp; i_skipped := i_skipped st + dk;
+     i_det_storage := i_det_storage st; i_det_serial := i_det_serial st |}.
+(* the state after whole messages of framing f were yielded, counters reset: only the latch remains *)
+Definition latched (f : framing) (st : ist) : ist :=
+  {| i_index := 0; i_processed := 0; i_skipped := 0;
+     i_det_storage := match f with Storage => true | Serial => i_det_storage st end;
+     i_det_serial := match f with Storage => i_det_serial st | Serial => true end |}.
+Definition encs (f : framing) (l : list amsg) : bytes := flat_map (enc f) l.
+Fixpoint expect_from (f : framing) (idx : N) (l : list amsg) : list msg :=
+  match l with [] => [] | a :: l' => expect f idx a :: expect_from f (idx + 1) l' end.
